@@ -134,10 +134,12 @@ def check(run, prog, tier):
     run.rule("C13-B", "forward and backward prefactors multiply to one", minimum=3)
     run.rule("C13-C", "Hermitian extension: index pairs sum to the extended length", minimum=4)
     run.rule("C13-D", "axis conjugation round trips (scalar algebra)", minimum=16)
+    run.rule("C13-F", "a copy of an axis carries everything the axis knows about its conjugate axis", minimum=1)
     rule_A(run, prog)
     pref = rule_B(run, prog)
     rule_C(run, prog)
     rule_D(run, prog)
+    rule_F(run, prog)
 
 
 def _ffts(f):
@@ -379,6 +381,49 @@ def _eval_axis(f, atype, env, order):
             ev.env[s.targets[0].id] = v
             vals[s.targets[0].id] = v
     return vals
+
+
+def rule_F(run, prog):
+    """'The frequency axis derived from a time axis maps back to the same time axis': what a frequency axis knows about its
+    time axis is its step, its length and time_start (and a time axis keeps frequency_start).  A copy of an axis - the
+    spectrum containers copy the axis they take over - has to carry all of it: in every `copy` method of the axis classes
+    that builds the copy with the class's own constructor, each constructor parameter that the constructor stores on the
+    object is passed on (positionally or by keyword); a parameter left to its default is state that the copy forgets, and
+    the copy maps back to a time axis that starts (or is centred) at zero."""
+    rid = "C13-F"
+    n = 0
+    for q in ("quantarhei.core.valueaxis.ValueAxis", "quantarhei.core.time.TimeAxis", "quantarhei.core.frequency.FrequencyAxis"):
+        cls = prog.cls(q)
+        cp = cls.methods.get("copy")
+        if cp is None:
+            continue
+        init = cls.methods.get("__init__")
+        if init is None:
+            continue
+        calls = [c for c in walk_no_nested(cp.node) if isinstance(c, ast.Call) and call_name(c) == cls.name]
+        if not calls:
+            continue
+        n += 1
+        prog.consulted.add(cp.relpath)
+        params = [a.arg for a in init.node.args.args[1:]]
+        stored = {p_ for p_ in params if any(isinstance(st, ast.Assign) and isinstance(st.value, ast.Name) and st.value.id == p_
+                                              and any(isinstance(t_, ast.Attribute) and norm(t_.value) == "self" for t_ in st.targets)
+                                              for st in ast.walk(init.node))}
+        # parameters handed on to the base constructor are stored there
+        for c_ in ast.walk(init.node):
+            if isinstance(c_, ast.Call) and isinstance(c_.func, ast.Attribute) and c_.func.attr == "__init__":
+                for a_ in list(c_.args) + [k.value for k in c_.keywords]:
+                    if isinstance(a_, ast.Name) and a_.id in params:
+                        stored.add(a_.id)
+        c = calls[0]
+        given = set(params[:len(c.args)]) | {k.arg for k in c.keywords}
+        missing = [p_ for p_ in params if p_ in stored and p_ not in given]
+        run.obligation(rid, cp.short, not missing, key="copy-carries-the-whole-axis",
+                       message="%s builds the copy with `%s` and leaves %s to the default: the copy forgets where its conjugate axis "
+                               "lies, and maps back to an axis that starts (or is centred) at zero"
+                               % (cp.short, norm(c)[:80], missing), loc=cp.loc(c), sample={"stored_parameters": sorted(stored)})
+    if n < 1:
+        raise AnalysisError("C13-F: no axis class builds its copy with its own constructor (FrequencyAxis.copy confirmed)")
 
 
 def rule_D(run, prog):
